@@ -88,6 +88,8 @@ class OpGen:
         self.budget = 6 + 5 * size
         self.nfrag = 0
         self.nvar = 0
+        self.nmg = 0
+        self.p_merged_groups = 0.12 if p_alias > 0 else 0.0
 
     # ---- variables ----------------------------------------------------
     def bool_var(self):
@@ -260,6 +262,13 @@ class OpGen:
         if inner and r.random() < 0.5:
             items.append("..." + r.choice(inner))
             self.features.add("quirk-candidate")
+        # SEVERAL groups of same-key object fields at one level, each group merging DIFFERENT sub-selections of the same
+        # field (`a: pet { name } a: pet { age }  b: pet { nick } b: pet { color } ...`): the merged selection lists are
+        # temporaries built one after the other (a cache keyed on their identity would hand group b the fields of group a)
+        if kind in ("object", "interface") and r.random() < self.p_merged_groups and depth <= self.size + 1:
+            txt = self.merged_groups(fields, depth)
+            if txt:
+                items.extend(txt)
         # repeat an item sometimes (same-key merging of identical nodes)
         if r.random() < 0.2:
             it = r.choice(items)
@@ -268,6 +277,39 @@ class OpGen:
                 self.features.add("repeated-selection")
         sep = r.choice([" ", "\n  ", ", "])
         return "{" + sep + sep.join(items) + sep + "}"
+
+    def merged_groups(self, fields, depth):
+        r = self.rng
+        cands = []
+        for f in fields:
+            base = ty_base(f["type"])
+            if kind_of(self.desc, base) != "object":
+                continue
+            leafs = [g for g in self.fields_of(base) if kind_of(self.desc, ty_base(g["type"])) in ("scalar", "enum")
+                     and not any(a["type"][0] == "nonNull" and a.get("default") is None for a in g.get("args") or [])]
+            if len(leafs) >= 2:
+                cands.append((f, leafs))
+        if not cands:
+            return None
+        f, leafs = r.choice(cands)
+        args = self.arguments(f)
+        if args is None:
+            return None
+        out = []
+        for g in range(r.randint(2, 4)):
+            key = "mg%d_%d" % (self.nmg, g)
+            self.keys[key] = (f["name"], args, ty_str(f["type"]))
+            parts = []
+            for _ in range(r.randint(2, 3)):
+                sub = r.sample(leafs, r.randint(1, min(2, len(leafs))))
+                parts.append("%s: %s%s { %s }" % (key, f["name"], args, " ".join(x["name"] for x in sub)))
+            out.extend(parts)
+        self.nmg += 1
+        self.budget -= 2
+        self.features.add("merged-groups")
+        if "[" in ty_str(f["type"]):
+            self.features.add("list-field")
+        return out
 
     def field(self, f, depth):
         r = self.rng
@@ -662,6 +704,32 @@ def adversarial_documents(rng, desc, n):
             text = "{ ...A } fragment A on %s { ...B } fragment B on %s { ...A %s%s%s }" % (
                 root, root, any_f["name"], req_args(any_f), sub(any_f))
             out.append(("fragment-cycle", text, {}))
+        elif k == 10 and rng.random() < 0.5:
+            # an ACYCLIC entry chain (length 1..3) leading INTO a cycle (length 2..3, sometimes 1): Entry -> A -> B -> A.
+            # Every definition order; the chain is spread from the operation, sometimes also from another acyclic fragment.
+            pool = ["Entry", "Mid", "Pre", "A", "B", "C", "Zz", "a0"]
+            rng.shuffle(pool)
+            nchain, ncyc = rng.randint(1, 3), rng.choice([1, 2, 2, 3, 3])
+            chain, cyc = pool[:nchain], pool[nchain:nchain + ncyc]
+            inner = "%s%s%s" % (any_f["name"], req_args(any_f), sub(any_f))
+            defs = []
+            for i, n in enumerate(chain):
+                nxt = chain[i + 1] if i + 1 < len(chain) else cyc[0]
+                defs.append("fragment %s on %s { %s...%s }" % (n, root, (inner + " ") if rng.random() < 0.5 else "", nxt))
+            for i, n in enumerate(cyc):
+                nxt = cyc[(i + 1) % len(cyc)]
+                defs.append("fragment %s on %s { ...%s%s }" % (n, root, nxt, (" " + inner) if rng.random() < 0.5 else ""))
+            spreads = ["..." + chain[0]]
+            if rng.random() < 0.4:
+                defs.append("fragment Side on %s { ...%s }" % (root, rng.choice(chain)))
+                spreads.append("...Side")
+            order = rng.choice(["as-is", "reversed", "shuffled"])
+            if order == "reversed":
+                defs.reverse()
+            elif order == "shuffled":
+                rng.shuffle(defs)
+            rng.shuffle(spreads)
+            out.append(("fragment-cycle-behind-entry", "{ %s } %s" % (" ".join(spreads), " ".join(defs)), {}))
         elif k == 10:
             # a fragment cycle NEXT TO an acyclic fragment, names in every alphabetical arrangement (memo tables keyed
             # by sorted name pairs), the cycle of length 1..3, the acyclic fragment also spread inside the cycle
